@@ -42,6 +42,10 @@ func (bc *Config) Backoff(attempt uint) time.Duration {
 	}
 	backoff, max := float64(bc.BaseDelay), float64(bc.MaxDelay)
 	backoff *= math.Pow(bc.Multiplier, float64(attempt))
+	if math.IsNaN(backoff) {
+		// A zero base delay times an overflowed power (0 * +Inf) is still no delay.
+		backoff = 0
+	}
 	backoff = math.Min(backoff, max)
 	// Randomize the backoff delay
 	r := rand.New(rand.NewSource(time.Now().UnixNano()))
